@@ -24,6 +24,9 @@ import (
 
 type caseC06 struct {
 	Text model.Text
+	// NoExclusions disables the exclusion predicates of the known findings; it is only set in
+	// their witness files, so that a witness keeps reproducing the finding.
+	NoExclusions bool `json:",omitempty"`
 }
 
 var c06Alphabet = []string{
@@ -99,7 +102,11 @@ func parseShape(name string, records []klog.Record, blocks []txt.Block, errs []t
 
 // crashCheck runs everything the property names on one input. Panics are caught by safeCheck.
 func crashCheck(text string, out *Outcome) error {
-	if hasUnrepresentableDuration(text) {
+	return crashCheckX(text, out, false)
+}
+
+func crashCheckX(text string, out *Outcome, noExclusions bool) error {
+	if !noExclusions && hasUnrepresentableDuration(text) {
 		out.Label("excluded:F2-unrepresentable-duration-literal")
 		return nil
 	}
@@ -148,7 +155,7 @@ func crashCheck(text string, out *Outcome) error {
 		if d > maxDay {
 			maxDay = d
 		}
-		if sum >= 1<<62 {
+		if sum >= 1<<62 && !noExclusions {
 			out.Label("excluded:F3-sum-beyond-2^62")
 			return nil
 		}
@@ -221,7 +228,7 @@ func checkC06(c caseC06) (Outcome, error) {
 					done <- fmt.Errorf("PANIC: %v\n%s", r, stack())
 				}
 			}()
-			done <- crashCheck(text, &out)
+			done <- crashCheckX(text, &out, c.NoExclusions)
 		}()
 		select {
 		case err := <-done:
@@ -231,7 +238,7 @@ func checkC06(c caseC06) (Outcome, error) {
 		case <-gotime.After(20 * gotime.Second):
 			return out, fmt.Errorf("HANG: no result after 20 s\ntext: %s", quoteShort(text))
 		}
-	} else if err := crashCheck(text, &out); err != nil {
+	} else if err := crashCheckX(text, &out, c.NoExclusions); err != nil {
 		return out, err
 	}
 	out.NonTrivial = c06NonTrivial(text) && len(out.Labels) > 0 && !strings.HasPrefix(out.Labels[0], "excluded")
@@ -241,7 +248,7 @@ func checkC06(c caseC06) (Outcome, error) {
 func checkC06Direct(c caseC06) (Outcome, error) {
 	var out Outcome
 	text := string(c.Text)
-	if err := crashCheck(text, &out); err != nil {
+	if err := crashCheckX(text, &out, c.NoExclusions); err != nil {
 		return out, fmt.Errorf("%v\ntext: %s", err, quoteShort(text))
 	}
 	out.NonTrivial = c06NonTrivial(text) && len(out.Labels) > 0 && !strings.HasPrefix(out.Labels[0], "excluded")
